@@ -41,8 +41,10 @@ package resources
 
 // The quota handed to a processor is the quota of the ID THE PROCESSOR ASKED FOR: the object the administrative entry
 // registered under quotaID resolves for quotaID - whatever was resolved for the same request before (a request that is
-// subject to two quotas gets each of them, so each of them counts it and each can refuse it). A quota the request
-// touched is remembered for OnRequestDrop (which one, when there are several, is not part of the properties).
+// subject to two quotas gets each of them, so each of them counts it and each can refuse it). The FIRST quota a request
+// touched is remembered for OnRequestDrop and stays remembered: a concurrency quota is touched at request start (its
+// system flow), so an early response or a proxy error gives its slot back at once; a later look-up of another quota
+// (a limiter further down the flow) must not take the record over, or the slot waits for its expiry.
 //@ pure QuotaAdmI.GetQuota
 //@ func (*ResourceManagement).GetQuota
 //@   prop C01, C02
@@ -50,6 +52,6 @@ package resources
 //@   modifies smapof(regCtx(rm).ctx), now
 //@   ensures[the-quota-of-this-id] result1 == nil ==> in(quotaID, rm.quotas.data) && result0 == rm.quotas.data[quotaID].GetQuota(quotaID)
 //@   ensures[unknown-id-is-an-error] !in(quotaID, rm.quotas.data) ==> result1 != nil
-//@   ensures[request-registered] result1 == nil && reqID != "" ==> smapin(regCtx(rm).ctx, reqID)
-//@   ensures[registered-is-a-quota-of-the-request] smapin(regCtx(rm).ctx, reqID) ==> (old(smapin(regCtx(rm).ctx, reqID)) && smapget(regCtx(rm).ctx, reqID) == old(smapget(regCtx(rm).ctx, reqID))) || (result1 == nil && smapget(regCtx(rm).ctx, reqID) == result0)
+//@   ensures[first-quota-remembered] result1 == nil && reqID != "" && !old(smapin(regCtx(rm).ctx, reqID)) ==> smapin(regCtx(rm).ctx, reqID) && smapget(regCtx(rm).ctx, reqID) == result0
+//@   ensures[earlier-registration-kept] old(smapin(regCtx(rm).ctx, reqID)) ==> smapin(regCtx(rm).ctx, reqID) && smapget(regCtx(rm).ctx, reqID) == old(smapget(regCtx(rm).ctx, reqID))
 //@   ensures[others] forall(r, string, r != reqID ==> (smapin(regCtx(rm).ctx, r) <==> old(smapin(regCtx(rm).ctx, r))) && smapget(regCtx(rm).ctx, r) == old(smapget(regCtx(rm).ctx, r)))
